@@ -178,6 +178,15 @@ pub fn run(args: &Args, out: &mut Out) {
                 if len % 2 == 1 { odd += 1; }
                 cksum_case(kind, &d, &src, &dst, out);
             }
+            // all-zero contents (also the checksum word holding a stale value) and all-zero addresses: the sum of everything but the
+            // checksum word is zero - the negative-zero corner of one's-complement arithmetic
+            if len % 4 == 0 || len < 64 {
+                let alen = if kind.ends_with('6') { 16 } else { 4 };
+                let mut d = vec![0u8; len];
+                cksum_case(kind, &d, &vec![0u8; alen], &vec![0u8; alen], out);
+                let k = match kind { "ipv4hdr" => 5, "icmp4" | "icmp6" => 1, "udp4" | "udp6" => 3, _ => 8 };
+                if len >= 2 * k + 2 { d[2 * k] = 0x12; d[2 * k + 1] = 0x34; cksum_case(kind, &d, &vec![0u8; alen], &vec![0u8; alen], out); }
+            }
         }
     }
     // Paris
